@@ -71,7 +71,14 @@ Setup(c) ==
       SDef("mutate", <<>>, <<Mut(c.kind, c.mut, c.via), SReturn(AInt(0))>>),
       SDef("boom", <<>>, <<SReturn(ABin("//", AInt(1), AInt(0)))>>),
       SDef("keyf", <<AParam("q", <<113>>)>>, <<SExpr(ACall(AVar("mutate"), <<>>)), SReturn(AInt(0))>>),
-      SDef("first", <<>>, <<SFor(TVar("j1"), AVar("xs"), <<SReturn(AVar("j1"))>>), SReturn(ANone)>>)>>
+      SDef("first", <<>>, <<SFor(TVar("j1"), AVar("xs"), <<SReturn(AVar("j1"))>>), SReturn(ANone)>>),
+      \* return from the innermost of 2 / 3 nested loops over the same local
+      SDef("first2", <<AParam("v", <<118>>)>>,
+           <<SFor(TVar("j1"), AVar("v"), <<SFor(TVar("j2"), AVar("v"), <<SReturn(AVar("j2"))>>)>>), SReturn(ANone)>>),
+      SDef("first3", <<AParam("v", <<118>>)>>,
+           <<SFor(TVar("j1"), AVar("v"),
+                  <<SFor(TVar("j2"), AVar("v"), <<SFor(TVar("j3"), AVar("v"), <<SReturn(AVar("j3"))>>)>>)>>),
+             SReturn(ANone)>>)>>
 
 CallMutate == ACall(AVar("mutate"), <<>>)
 CallBoom == ACall(AVar("boom"), <<>>)
@@ -84,7 +91,10 @@ IterChunk(c) ==
          ELSE IF c.exit = "attempt_outer" THEN <<Nest(c.depth, <<SPass>>, <<m>>)>>
          ELSE IF c.exit = "exhaust" THEN <<Nest(c.depth, <<SPass>>, <<>>), m>>
          ELSE IF c.exit = "break" THEN <<Nest(c.depth, <<SBreak>>, <<SBreak>>), m>>
-         ELSE IF c.exit = "return" THEN <<SExpr(ACall(AVar("first"), <<>>)), m>>
+         ELSE IF c.exit = "return" THEN
+             <<SExpr(IF c.depth = 1 THEN ACall(AVar("first"), <<>>)
+                     ELSE IF c.depth = 2 THEN ACall(AVar("first2"), <<AVar("xs")>>)
+                     ELSE ACall(AVar("first3"), <<AVar("xs")>>)), m>>
          ELSE <<Nest(c.depth, <<Boom>>, <<>>)>>)
     ELSE IF c.cons = "compr" THEN
         (LET cl == IF c.depth = 1 THEN <<AFor(TVar("c1"), AVar("xs"))>>
@@ -118,7 +128,6 @@ Valid(c) ==
     /\ (c.cons \in {"sortedkey", "minkey", "selfextend"} => c.exit = "attempt" /\ c.depth = 1)
     /\ (c.cons = "selfextend" => c.mut \in {"extend", "update"})
     /\ (c.exit = "attempt_outer" => c.depth >= 2)
-    /\ (c.exit = "return" => c.depth = 1)
     /\ (c.direct => c.exit \in {"attempt", "attempt_outer"})
 
 CONSTANT MaxDepth
